@@ -2479,6 +2479,28 @@ fn c19(case: &Case, ctx: &Ctx, rpt: &mut Report, rng: &mut Rng, stream: &ExprStr
                     json!({"expr": clip(case.expr), "route": "into_owned+partition", "borrowed": [l[0], l[1]], "owned": [r[0], r[1]]}),
                 );
             }
+            // The postfix is a glob like any other: displaying it and building the displayed text
+            // gives a glob that reports the same capturing sub-expressions (round 9, C19-J: spans
+            // of a partitioned glob one byte off while everything else agreed). Documented syntax
+            // only, as in C08; what the rebuilt glob *matches* is C08's question.
+            if let (Some(bg), true) = (&bg, case.ast.as_ref().map_or(false, |a| a.notes.is_empty())) {
+                let text = bg.to_string();
+                if let Some(Some(rebuilt)) = guarded(|| Glob::new(&text).ok().map(Glob::into_owned)) {
+                    let spans = |g: &Glob| guarded(|| g.captures().map(|c| (c.index(), c.span())).collect::<Vec<_>>());
+                    if let (Some(a), Some(b)) = (spans(bg), spans(&rebuilt)) {
+                        rpt.evaluations += 1;
+                        rpt.bucket("route:partition -> display+new");
+                        if a != b || rebuilt.to_string() != text {
+                            rpt.disagreement(
+                                &ctx.known,
+                                "conversion-changes-behaviour",
+                                None,
+                                json!({"expr": clip(case.expr), "route": "partition -> display+new (the postfix displayed and rebuilt)", "postfix": clip(&text), "postfix_capture_spans": a, "rebuilt_capture_spans": b}),
+                            );
+                        }
+                    }
+                }
+            }
             // ... and the owned postfix, owned once more and partitioned again, gives what the
             // borrowed postfix gives when it is partitioned again (whether that is the postfix
             // behind an empty prefix is C08's question, not this one's).
